@@ -371,9 +371,12 @@ pub fn emit(e: &mut Emitter, seed: u64, thorough: bool) {
     let mut tries = 0;
     while made < n_inst && tries < 6 * n_inst {
         tries += 1;
-        let shape = pick_shape(&mut r);
+        // wide AIRs (more frame values than the constraint-binding step simulates per dummy ζ:
+        // 2·COLUMNS > num_extension_powers, i.e. ≥ 13 columns for degree 2/3 and ≥ 25 for degree 1)
+        // are forced once per run; the narrow shapes dominate otherwise
+        let shape = match made { 1 => if r.coin() { (14, 2) } else { (13, 0) }, 4 => (26, 0), _ => { let mut sh = pick_shape(&mut r); while sh.0 > 8 && !thorough { sh = pick_shape(&mut r); } sh } };
         // degree 0 (no constraint, no quotient) now and then; otherwise 1…3
-        let degree = if r.below(7) == 0 { 0 } else { r.range(1, 3) as usize };
+        let degree = match made { 1 => r.range(2, 3) as usize, 4 => 1, _ => if r.below(7) == 0 { 0 } else { r.range(1, 3) as usize } };
         let g = gen_air(&mut r, shape, degree);
         let air = g.air.clone();
         if air.needed_degree() > air.degree || !low_degree_ok(&air) {
